@@ -20,6 +20,7 @@ OwnCells  == {c \in OwnCellsAll : c.amt \in AmountsOf(Row(c.msg)) /\ c.scope \in
 PrivCellsAll == {[m |-> "priv", v |-> x.v, chain |-> c, sender |-> s, des |-> Designated(x.cls), pay |-> p] :
                    x \in Variants, c \in Chains, s \in Senders, p \in {"na", "caller", "designated", "third"}}
 PrivCells == {c \in PrivCellsAll : c.pay \in PaysOf(c.v)}
+OpenCells == {[m |-> "open", msg |-> x, signer |-> s, hole |-> h] : x \in OpenMsgs, s \in OpenSigners, h \in BOOLEAN}
 KillCells == {[m |-> "kill", adm |-> a, sender |-> s] : a \in AdminStates, s \in KillSenders}
 
 ExecRows    == {r \in Rows : r.exec}
@@ -52,6 +53,7 @@ DoOwn(c) == \E env \in BOOLEAN :
             LET o == OwnerStep(Pos0(c.holder), Row(c.msg), c.signer, env) IN
             /\ (OwnerPredicted(Row(c.msg), c.holder, c.signer, c.amt, c.scope) => env)        \* env only matters for the unpredicted cells
             /\ cell' = c /\ res' = [ok |-> o.ok] /\ st' = [st EXCEPT !.pos = o.pos]
+DoOpen(c) == cell' = c /\ res' = [ok |-> TRUE] /\ st' = [st EXCEPT !.ver = st.ver + 1]      \* touches nobody's position: st.pos unchanged
 DoPriv(c) == LET ok == ImplPrivOk(c.v, c.chain, c.sender) IN
             /\ cell' = c /\ res' = [ok |-> ok] /\ st' = IF ok THEN [st EXCEPT !.ver = st.ver + 1] ELSE st
 DoKill(c) == LET ok == ImplKillOk(c.adm, c.sender) IN
@@ -66,6 +68,7 @@ DoAuc(c) == LET frozen == ImplAucFrozen(c.hook, c.off) IN
 
 Next == /\ cell.m = "init"
         /\ \/ \E c \in OwnCells : DoOwn(c) /\ Out(c)
+           \/ \E c \in OpenCells : DoOpen(c) /\ Out(c)
            \/ \E c \in PrivCells : DoPriv(c) /\ Out(c)
            \/ \E c \in KillCells : DoKill(c) /\ Out(c)
            \/ \E c \in CtlCellsOK : DoCtl(c) /\ Out(c)
@@ -81,12 +84,14 @@ Tables ==
   /\ \A x, y \in Variants : x.v = y.v => x = y
   /\ \A r \in Rows : ConstrainedC12(r) \/ ConstrainedC14(r) \/ r \in Unconstrained      \* every row classified
   /\ \A r \in Rows : ConstrainedC14(r) => \E c \in CtlCellsOK : c.h = r.id /\ CtlOf(c) = CtlOff   \* non-vacuity reference exists
+  /\ OpenMsgs \subseteq Ids
   /\ \A r \in OwnerRows : \E c \in OwnCells : c.msg = r.id /\ c.signer = c.holder
 
 (* ---------------- design-level results (the model as coded against the property) ---------------- *)
 RejectedChangesNothingM == ~res.ok => st.ver = 0 /\ st.pos.ver = 0
 DesignC12 ==
   /\ cell.m = "own"  => OwnerOnly(Row(cell.msg), cell.holder, cell.signer, res.ok) /\ (cell.signer # cell.holder => st.pos = Pos0(cell.holder))
+  /\ cell.m = "open" => st.pos = St0.pos
   /\ cell.m = "priv" => PrivilegedOnlyDesignated(cell.chain, cell.sender, res.ok) /\ PrivilegedRole(cell.v, cell.chain, cell.sender, res.ok)
   /\ cell.m = "kill" => KillOnlyAdmin(cell.adm, cell.sender, res.ok)
 DesignC14 ==
